@@ -897,8 +897,10 @@ let run_ui (wd : uworld) preload width height root feeds keys ~frames ~hooks =
   let look tbl i = Hashtbl.find_opt tbl i in
   let open_link _ = OItem 999 and open_user _ = OItem 999 in
   let feed_named name = if List.mem name feeds then Some (CList []) else None in
-  let hook_fails _ = None in
   let lit s = List.map (fun ch -> n_of_int (Char.code ch)) (List.init (String.length s) (String.get s)) in
+  (* token 259 says that the configured hook program fails (exit status 1, no output) from now on *)
+  let hook_failing = ref false in
+  let hook_fails _ = if !hook_failing then Some (lit "Failed to open link: ") else None in
   let msg_feed x = lit "Failed to open feed: " @ x @ lit " is not a known feed" in
   let msg_cmd x = lit "Failed to run command: unrecognized subcommand: " @ x in
   let pre = z_of_int preload in
@@ -930,6 +932,7 @@ let run_ui (wd : uworld) preload width height root feeds keys ~frames ~hooks =
     | [] -> ()
     | 256 :: r -> gated := true; out := !out @ snap !st []; go r
     | 257 :: r -> gated := false; st := settle_all !st; out := !out @ snap !st []; go r
+    | 259 :: r -> hook_failing := true; out := !out @ snap !st []; go r
     | 258 :: w :: h :: r ->
       st := resize !st (z_of_int w) (z_of_int h);
       st := (if !gated then settle_g !st else settle_all !st); out := !out @ snap !st []; go r
